@@ -37,25 +37,29 @@ def live_part(tier, mon, kinds=None):
 def live3_part(tier, mon, kinds=None):
     """Three-message histories on ONE live object (see monitors.LiveThirdStep)."""
     from ..monitors import LiveThirdStep
+    from ..explore import canonical
     from .. import spec
     kinds = kinds or spec.ALL_KINDS
+    layouts = ('before', 'between', 'after')
     if tier == 'quick':
         shapes = [('AB', 'A', 'C'), ('D', 'A'), ('C', 'D', 'AB'), ('A', 'AB')]
-        layouts = ('before', 'between', 'after')
-        first = HMixed(max_list=1, story_L=1, meta_subsets=1, layouts=layouts, init_shapes=shapes)
         second = HMixed(max_list=1, story_L=1, meta_subsets=1)
         third = HMixed(max_list=1, story_L=1, meta_subsets=1, kinds=kinds)
-        from ..explore import canonical
-        states = list(dict.fromkeys(canonical(t) for t in first.initial_states()))
-        n = len(states) // len(shapes)
-        slices = {t: (i // len(shapes), n) for i, t in enumerate(states)} if len(states) == len(shapes) * len(layouts) else None
-        w = LiveThirdStep(mon, second, third, first_per_kind=1, second_per_kind=1, third_per_kind=4, slices=slices)
+        per = dict(first_per_kind=1, second_per_kind=1, third_per_kind=4)
     else:
-        first = HMixed(max_list=1, story_L=1, meta_subsets=1, layouts=('before',))
+        shapes = [('A',), ('A', 'AB'), ('AB', 'A', 'C'), ('D', 'A'), ('C', 'D', 'AB')]
         second = HMixed(max_list=1, story_L=2, meta_subsets=1)
         third = HMixed(max_list=2, story_L=2, meta_subsets=1, kinds=kinds)
-        w = LiveThirdStep(mon, second, third, first_per_kind=2, second_per_kind=2, third_per_kind=12)
-    return {'label': 'live-three-message-histories', 'harness': first, 'monitors': [w], 'opts': {'max_depth': 0}}
+        per = dict(first_per_kind=1, second_per_kind=2, third_per_kind=8)
+    first = HMixed(max_list=1, story_L=1, meta_subsets=1, layouts=layouts, init_shapes=shapes)
+    # the work of one initial state is first x second x third messages; the explorer distributes states over its workers,
+    # so each shape is given in three layouts and each copy starts the histories of one third of the message classes
+    states = list(dict.fromkeys(canonical(t) for t in first.initial_states()))
+    n = len(states) // len(shapes)
+    slices = {t: (i // len(shapes), n) for i, t in enumerate(states)} if len(states) == len(shapes) * len(layouts) else None
+    w = LiveThirdStep(mon, second, third, slices=slices, **per)
+    return {'label': 'live-three-message-histories', 'harness': first, 'monitors': [w],
+            'opts': {'max_depth': 0} if tier == 'quick' else {'max_depth': 0, 'time_cap': 1200}}
 
 
 def story_item_parts(tier, mon, *, timing_variants=True, small=False, mixed=True, live=True, live3=True, exotic=True):
